@@ -343,20 +343,48 @@ func a12Happened(e Event, after BeState) bool {
 	return ok && bytes.Equal(b, e.Data)
 }
 
+// a12FailedAttempts finds save attempts that reported an error and were then cleaned up: the
+// retry layer removes the file after a failed Save on backends without atomic replace. Such a
+// pair (save reported as failed, later successful remove of the same file before any other save
+// of it) is one failed attempt that leaves the repository as it was (Lean:
+// `failed_attempt_noop`); both events are dropped from the emitted trace.
+func a12FailedAttempts(evs []Event) map[int]bool {
+	skip := map[int]bool{}
+	for i, e := range evs {
+		if e.Op != "save" || !e.Err {
+			continue
+		}
+		for j := i + 1; j < len(evs); j++ {
+			f := evs[j]
+			if f.Type != e.Type || f.Name != e.Name {
+				continue
+			}
+			if f.Op == "remove" && !f.Err {
+				skip[i], skip[j] = true, true
+			}
+			if f.Op == "save" || f.Op == "remove" {
+				break
+			}
+		}
+	}
+	return skip
+}
+
 // a12EmitEvents writes the mutating events on pack / index / snapshot files that took effect.
 // Returns the number of events written.
 func a12EmitEvents(h *H, d *a12Dec, in *a12Intern, proc string, evs []Event, after BeState) int {
 	n := 0
-	for _, e := range evs {
-		if !a12Happened(e, after) {
+	skip := a12FailedAttempts(evs)
+	for i, e := range evs {
+		if skip[i] || !a12Happened(e, after) {
 			continue
 		}
 		if e.Op == "save" && e.Type == "data" {
 			d.Pack(e.Name, e.Data)
 		}
 	}
-	for _, e := range evs {
-		if !a12Happened(e, after) {
+	for i, e := range evs {
+		if skip[i] || !a12Happened(e, after) {
 			continue
 		}
 		switch {
